@@ -36,10 +36,11 @@ def measure(yaw_e, yaw_g, rendering, ego, sign_e=1, sign_g=1, roll=0.0, pitch=0.
     e = obj3d((5.0, 2.0, 0.0), yaw=yaw_e, label="car", score=0.8, frame=fr, ego=ego, quat_sign=sign_e)
     g = obj3d((5.2, 2.1, 0.0), yaw=yaw_g, label="car", score=1.0, frame=fr, ego=ego, quat_sign=sign_g)
     if roll or pitch:
-        for o, s in ((e, sign_e), (g, sign_g)):
+        # the two objects are tilted differently (estimate: roll, pitch; ground truth: -pitch / 2, roll)
+        for o, s, (rl, pt) in ((e, sign_e, (roll, pitch)), (g, sign_g, (-pitch / 2.0, roll))):
             y = o.state.orientation.yaw_pitch_roll[0]
             # pyquaternion's yaw_pitch_roll inverts q = Rx(roll) * Ry(pitch) * Rz(yaw)
-            q = Quaternion(axis=[1, 0, 0], radians=roll) * Quaternion(axis=[0, 1, 0], radians=pitch) * Quaternion(axis=[0, 0, 1], radians=y)
+            q = Quaternion(axis=[1, 0, 0], radians=rl) * Quaternion(axis=[0, 1, 0], radians=pt) * Quaternion(axis=[0, 0, 1], radians=y)
             o.state.orientation = q if s > 0 else Quaternion(-q.elements)
     tf = ego.transforms() if ego is not None else None
     r = DynamicObjectWithPerceptionResult(e, g, transforms=tf)
